@@ -131,7 +131,7 @@ def triangle_contains(ctx):
 
 
 @case("C16", "polygon3.contains.2d", names("a", 2) + names("b", 2) + names("c", 2) + names("p", 2), mode="real",
-      functions=FPOLY, timeout=180, max_paths=600, explore_time=900, tier="thorough")
+      functions=FPOLY, timeout=180, max_paths=600, explore_time=900, tier="experimental")
 def polygon3_contains(ctx):
     """the generic even-odd algorithm on a 3-gon (Polygon, not Triangle)"""
     geometer, gs = _g()
